@@ -258,4 +258,13 @@ def ru_names_bound(ctx: Ctx) -> None:
     names_rule(ctx)
 
 
-RULES = [r1_no_truncation, r2_bias_equals_length, r3_both_ends_checked, r4_run_address_bookkeeping, r5_bank_classification, r6_layout_agreement, rb_binding_agreement, rm_no_process_lifetime_results, ru_names_bound]
+
+def r7_selected_mapping_is_applied(ctx: Ctx) -> None:
+    """which addresses are ROM and which bank they are in depends on the mapping: the file entry points select the requested one before
+    assembling (shared with C12.R1)"""
+    from .c12 import mapping_applied
+
+    mapping_applied(ctx)
+
+
+RULES = [r1_no_truncation, r2_bias_equals_length, r3_both_ends_checked, r4_run_address_bookkeeping, r5_bank_classification, r6_layout_agreement, r7_selected_mapping_is_applied, rb_binding_agreement, rm_no_process_lifetime_results, ru_names_bound]
